@@ -17,7 +17,7 @@ import (
 	"github.com/lmorg/murex/utils/parser"
 )
 
-var runes = []string{"{", "}", "[", "]", "(", ")", "$", "@", "%", "'", "\"", "\\", "|", "&", ";", "?", "=", "<", ">", "~", "#", "/", "-", ":", "!", "*", ".", ",", " ", "\n", "a"}
+var runes = []string{"{", "}", "[", "]", "(", ")", "$", "@", "%", "'", "\"", "\\", "|", "&", ";", "?", "=", "<", ">", "~", "#", "/", "-", ":", "!", "*", ".", ",", " ", "\n", "\t", "a"}
 var core = []string{"{", "}", "(", ")", "[", "$", "@", "%", "'", "\"", "\\", "|", "&", ":", " ", "a"}
 var tokens = []string{"${", "@{", "%[", "%{", "%(", "->", "=>", "|>", ">>", "&&", "||", "/#", "#/", "..", "<out>", "<!out>", "$a[", "[[", "]]", "\n", "$a", "@a", "a", " ", ":", "{", "}", "(", ")", "]", "'", "\"", "=", "$(", "~", ";", "?", "*"}
 
@@ -47,7 +47,7 @@ var progress atomic.Int64
 func init() {
 	vlib.Register(&vlib.Check{
 		ID: "C20", Engine: "E2",
-		Rule: "every string over the 31-rune murex alphabet up to length L, every string over the 16-rune core up to L2, every sequence of multi-rune tokens up to L3 and every sequence of up to L4 argument tokens (index, lambda, sub-shell, quote openers and closers) after a command name is passed, as a rune slice whose capacity equals its length, to expressions.ParseBlock, parser.Parse(r,0) and parser.Parse(r,len/2); enumeration never repeats an input; non-trivial = inputs for which ParseBlock produced a syntax tree with at least one function or a syntax error (i.e. everything except inputs that parse to an empty tree)",
+		Rule: "every string over the 32-rune murex alphabet up to length L, every string over the 16-rune core up to L2, every sequence of multi-rune tokens up to L3 and every sequence of up to L4 argument tokens (index, lambda, sub-shell, quote openers and closers) after a command name is passed, as a rune slice whose capacity equals its length, to expressions.ParseBlock, parser.Parse(r,0) and parser.Parse(r,len/2); enumeration never repeats an input; non-trivial = inputs for which ParseBlock produced a syntax tree with at least one function or a syntax error (i.e. everything except inputs that parse to an empty tree)",
 		Run:  func(c *vlib.Ctx) { run(c, true) },
 		Replay: func(c *vlib.Ctx, w string) {
 			one(c, w, true)
